@@ -69,7 +69,10 @@ func GetSession(sid string) (*Session, bool) {
 		extended := *sess
 		extended.ExpiresAt = time.Now().Add(defaultLifetime)
 		sess = &extended
-		sessionStore.Set(sid, sess)
+		// A logout that got in between has removed the session: it stays removed.
+		if !sessionStore.SetIfPresent(sid, sess) {
+			return nil, false
+		}
 	}
 
 	return sess, ok
